@@ -161,8 +161,15 @@ def gen_config(rng):
     else:
       root = fdl.Config(l2.fd, a={"k": t}, b={"k": t, "j": 0}, rest=root)
   # ArgFactory inside Partial
-  if rng.random() < 0.2:
+  r_af = rng.random()
+  if r_af < 0.15:
     root = fdl.Partial(l2.fa, a=fdl.ArgFactory(l2.Ka, p=root), b=fdl.ArgFactory(l2.fd))
+  elif r_af < 0.3:
+    # a Partial with an ArgFactory argument AND an ordinary argument; a node below the factory is also
+    # referenced from the ordinary side
+    shared_node = rng.choice([root, [1, 2], fdl.Config(l2.Kb, p=3)])
+    root = fdl.Partial(l2.fa, a=fdl.ArgFactory(l2.Ka, p=shared_node, q=[shared_node]),
+                       b=rng.choice([shared_node, [shared_node], {"k": shared_node}]))
   # every tagged argument gets a value (precondition of the property) most of the time
   if rng.random() < 0.9:
     for b in reach(root):
@@ -188,6 +195,16 @@ def adversarial_names_config(rng):
   second = fdl.Config(l2.fd, **{(names[0] if same else names[-1]): shared, "k": [rng.randint(0, 5)]})
   root = fdl.Config(l2.fd, first=inner, second=second, **({names[0]: shared} if rng.random() < 0.3 else {}))
   subs = {"sub_fixture_0": inner, "sub_fixture_1": second} if rng.random() < 0.7 else None
+  if rng.random() < 0.35:
+    # a node shared ACROSS sub-fixtures (it becomes a parameter named after its attribute) and, inside one
+    # sub-fixture, another shared node whose path ends in the same attribute name
+    nm = rng.choice(["e", "embedder", names[0]])
+    across = fdl.Config(l2.Ka, p=0)
+    within = fdl.Config(l2.Kb, p=1)
+    first = fdl.Config(l2.fd, **{nm: across}, sub=fdl.Config(l2.fd, **{nm: within}), also=[within])
+    second2 = fdl.Config(l2.fd, **{nm: across}, k=2)
+    root = fdl.Config(l2.fd, first=first, second=second2)
+    subs = {"sub_fixture_0": first, "sub_fixture_1": second2}
   return root, subs
 
 
